@@ -17,6 +17,9 @@ pub(crate) use listener::ListenerMessage;
 pub(crate) use session::Session;
 pub(crate) use session::SessionMessage;
 
+#[cfg(slawlor_ractor_verif)]
+pub use session::verif_probe as verif_session_probe;
+
 /// A network port
 pub(crate) type NetworkPort = u16;
 
